@@ -709,10 +709,18 @@ def gen_stream(src_dir, report):
     out += "Definition benign_chunks : list Z := [%s].\n" % "; ".join("ct_" + n for n in names)
     report['parse_chunk.benign'] = 'regenerated'
     zl = strip_comments(open(os.path.join(src_dir, 'decoder', 'zlib.rs')).read())
-    m = re.search(r'const LOOKBACK_SIZE: usize = (\d+);', zl); m2 = re.search(r'if self\.out_pos > LOOKBACK_SIZE \* (\d+) \{', zl)
-    if not (m and m2):
+    m = re.search(r'const LOOKBACK_SIZE: usize = ([^;]+);', zl); m2 = re.search(r'if self\.out_pos > LOOKBACK_SIZE \* ([^{]+?) \{', zl)
+    def const_eval(txt):
+        # closed integer expressions only: digits, _, + - * / << >> ( ) and `as usize`
+        t = txt.replace('as usize', '').replace('_', '').replace('usize', '').strip()
+        if not re.fullmatch(r'[\d\s\+\-\*/<>\(\)]+', t): return None
+        try: return int(eval(t.replace('/', '//'), {'__builtins__': {}}, {}))
+        except Exception: return None
+    lb = const_eval(m.group(1)) if m else None
+    cf = const_eval(m2.group(1)) if m2 else None
+    if lb is None or cf is None:
         report['zlib.constants'] = 'untranslatable'; return None
-    out += "Definition LOOKBACK_SIZE : Z := %s.\nDefinition COMPACT_FACTOR : Z := %s.\n" % (m.group(1), m2.group(1))
+    out += "Definition LOOKBACK_SIZE : Z := %d.\nDefinition COMPACT_FACTOR : Z := %d.\n" % (lb, cf)
     report['zlib.constants'] = 'regenerated'
     md = strip_comments(open(os.path.join(src_dir, 'decoder', 'mod.rs')).read())
     m = re.search(r'impl Default for Limits \{\s*fn default\(\) -> Limits \{\s*Limits \{\s*bytes: ([\d\s\*]+),', md)
